@@ -400,6 +400,12 @@ class ActionTypeHint(Action):
                 arg_base, sep, explicit_arg = arg_string.partition("=")
             if "." in arg_base and arg_base not in parser._option_string_actions:
                 action = _find_parent_action(parser, arg_base[2:])
+                if action is None:
+                    # option spelled differently from its dest, e.g. --my-opt (dest my_opt)
+                    for opt_str, opt_action in parser._option_string_actions.items():
+                        if opt_str.startswith("--") and arg_base.startswith(opt_str + "."):
+                            action = opt_action
+                            break
 
         typehint = typehint_from_action(action)
         if typehint:
@@ -532,11 +538,12 @@ class ActionTypeHint(Action):
             return ActionTypeHint(**kwargs)
         cfg, val, opt_str = args[1:]
         if not (self.nargs == "?" and val is None):
-            if isinstance(opt_str, str) and opt_str.startswith(f"--{self.dest}."):
-                if opt_str.startswith(f"--{self.dest}.init_args."):
-                    sub_opt = opt_str[len(f"--{self.dest}.init_args.") :]
-                else:
-                    sub_opt = opt_str[len(f"--{self.dest}.") :]
+            prefixes = [f"--{self.dest}."] + [f"{o}." for o in self.option_strings if o.startswith("--")]
+            prefix = next((x for x in prefixes if isinstance(opt_str, str) and opt_str.startswith(x)), None)
+            if prefix:
+                sub_opt = opt_str[len(prefix) :]
+                if sub_opt.startswith("init_args."):
+                    sub_opt = sub_opt[len("init_args.") :]
                 val = NestedArg(key=sub_opt, val=val)
             append = isinstance(opt_str, str) and opt_str.endswith("+") and opt_str in self.option_strings
             val = self._check_type_(val, append=append, cfg=cfg)
